@@ -39,6 +39,9 @@ enum Op {
     Clone(usize),
     Drop(usize),
     Eq(usize, usize),
+    Index(usize, u64),
+    IsEmpty(usize),
+    ToVec(usize),
 }
 
 impl Op {
@@ -54,6 +57,9 @@ impl Op {
             Op::Clone(l) => format!("k{l}"),
             Op::Drop(l) => format!("d{l}"),
             Op::Eq(a, b) => format!("e{a}.{b}"),
+            Op::Index(l, v) => format!("x{l}.{v}"),
+            Op::IsEmpty(l) => format!("y{l}"),
+            Op::ToVec(l) => format!("t{l}"),
         }
     }
     fn kind(&self) -> &'static str {
@@ -70,6 +76,9 @@ impl Op {
             Op::Drop(..) => "drop",
             Op::Eq(a, b) if a == b => "eq-self",
             Op::Eq(..) => "eq",
+            Op::Index(..) => "index",
+            Op::IsEmpty(..) => "is_empty",
+            Op::ToVec(..) => "to_vec",
         }
     }
     fn parse(s: &str) -> Option<Op> {
@@ -86,6 +95,9 @@ impl Op {
             ("k", [l]) => Op::Clone(*l as usize),
             ("d", [l]) => Op::Drop(*l as usize),
             ("e", [a, b]) => Op::Eq(*a as usize, *b as usize),
+            ("x", [l, v]) => Op::Index(*l as usize, *v),
+            ("y", [l]) => Op::IsEmpty(*l as usize),
+            ("t", [l]) => Op::ToVec(*l as usize),
             _ => return None,
         })
     }
@@ -258,6 +270,9 @@ fn run_thread(
                     Res::Unit
                 }
                 Op::Len(l) => Res::Nat(bag[*l].last().unwrap().len()),
+                Op::Index(l, v) => Res::Opt(bag[*l].last().unwrap().index(v).map(|i| i as u64)),
+                Op::IsEmpty(l) => Res::Bool(bag[*l].last().unwrap().is_empty()),
+                Op::ToVec(l) => Res::List(bag[*l].last().unwrap().to_vec()),
                 Op::Clone(l) => {
                     hk::sched_op("harness:clone");
                     let c = bag[*l].last().unwrap().clone();
@@ -489,6 +504,9 @@ fn spec_op(lists: &mut [Vec<u64>], op: &Op) -> Res {
             Res::Unit
         }
         Op::Len(l) => Res::Nat(lists[*l].len()),
+        Op::Index(l, v) => Res::Opt(lists[*l].iter().position(|x| x == v).map(|i| i as u64)),
+        Op::IsEmpty(l) => Res::Bool(lists[*l].is_empty()),
+        Op::ToVec(l) => Res::List(lists[*l].clone()),
         Op::Clone(_) | Op::Drop(_) => Res::Unit,
         Op::Eq(a, b) => Res::Bool(lists[*a] == lists[*b]),
     }
@@ -675,6 +693,9 @@ fn alphabet() -> Vec<Op> {
         Op::FfiGet(1, 1),
         Op::Contains(1, 8),
         Op::Len(1),
+        Op::Index(0, 3),
+        Op::ToVec(0),
+        Op::IsEmpty(1),
     ]
 }
 
@@ -702,9 +723,13 @@ fn random_op(rng: &mut Prng) -> Op {
         8 => Op::Contains(l, 1 + rng.below(8)),
         9 => Op::Swap(l, rng.below(5) as usize, rng.below(5) as usize),
         10 => Op::Eq(l, rng.below(2) as usize),
-        _ => {
-            if rng.chance(1, 2) { Op::Len(l) } else { Op::Clone(l) }
-        }
+        _ => match rng.below(5) {
+            0 => Op::Len(l),
+            1 => Op::Clone(l),
+            2 => Op::Index(l, 1 + rng.below(8)),
+            3 => Op::IsEmpty(l),
+            _ => Op::ToVec(l),
+        },
     }
 }
 
